@@ -353,6 +353,38 @@ func zzH_C11_update_sequence(t *zzT) {
 			t.Assert(e2 == nil && VerifyProof(query, rp, tree.Root()), "a tree reloaded after a history of updates proves every leaf")
 		}
 	}
+	// the updated tree keeps growing: one more append lands on the root of the modified list + the new leaf
+	extra := t.Bytes("appended", t.Param("W", 1))
+	for j := range cur {
+		t.Assume(!bytes.Equal(extra, cur[j]))
+	}
+	t.Assert(zzSameList(tree.AppendPath(), zzRefAppendPath(cur)), "after updates the append path is the append path of the modified list")
+	t.Assert(tree.Append(extra) == nil && bytes.Equal(tree.Root(), zzRefRoot(append(append([][]byte{}, cur...), extra))), "an append after updates yields the root of the modified list plus the new leaf")
+	t.Reach("end")
+}
+
+// C11.b/c (the append path as a value): AppendPath() read after the k-th append of ONE growing tree and
+// kept by the caller (as a block producer keeps it until the next block) still is the append path of
+// the first k leaves after further appends: equal to the reference path, folding with the right witness
+// generated by the grown tree to the final root, and predicting the (k+1)-th append.
+//
+//zz:opt loop=200 require=end
+//zz:quick N=4 W=1
+//zz:thorough N=8 W=1
+func zzH_C11_append_path_history(t *zzT) {
+	n := t.Range("n", 1, t.Param("N", 4))
+	vals := zzLeaves(t, n)
+	tree := NewRegularMerkleTree(&zzDB{})
+	kept := make([][][]byte, n+1)
+	kept[0] = tree.AppendPath()
+	for i, v := range vals {
+		t.Assert(tree.Append(v) == nil, "Append succeeds")
+		kept[i+1] = tree.AppendPath() // not copied: what a caller holding the returned value sees
+	}
+	k := t.Range("k", 0, n)
+	t.Assert(zzSameList(kept[k], zzRefAppendPath(vals[:k])), "an append path obtained earlier is not changed by later appends")
+	witness, err := tree.GenerateRightWitness(uint64(k))
+	t.Assert(err == nil && VerifyRightWitness(uint64(k), kept[k], witness, tree.Root()), "an append path obtained earlier and the right witness of the grown tree reconstruct the root")
 	t.Reach("end")
 }
 
